@@ -438,6 +438,8 @@ func newJoin(c Cfg, w *vrt.World) *explore.Instance {
 					// input slices are sub-slices of two larger arrays, taken alternately:
 					// the spare capacity of one input slice holds later, still pending input
 					seg = inter[nseg%2][(nseg/2)*l : (nseg/2)*l+l]
+				case l == 0 && zeros%2 == 1:
+					seg = nil // a nil slice is a legal empty input slice too
 				default:
 					seg = make([]int, l)
 				}
